@@ -3,7 +3,11 @@ import itertools
 import hashlib
 import os.path
 import inspect
+import random
+import sys
+import types
 from importlib.machinery import SourceFileLoader
+from importlib.util import cache_from_source
 
 
 class CodeGenerator:
@@ -150,41 +154,39 @@ def unpack_impl(pkt, raw, offset, **k):
         # Full path for the new module
         module_pathname = os.path.join(folder, module_name + ".py")
 
-        # Try to import it first, if exists
-        module = None
-        if os.path.exists(module_pathname):
-            try:
-                module = SourceFileLoader(module_name,
-                                          module_pathname).load_module()
-            except ImportError:
-                pass
+        # Try to import it first, if exists. The file may come from another
+        # definition of a class with the same name, from another process
+        # that is defining the class right now or from a process that died
+        # in the middle, so it is used only if it proves to be complete and
+        # generated for this very packet class.
+        module = self.load_generated_module(
+            module_name, module_pathname, cookie
+        )
 
-        # If no previously written module exists or its cooke does not match
+        # If no previously written module exists or its cookie does not match
         # ours, recreate the file and reload it
-        if not module or getattr(
-            module, 'BISTURI_PACKET_COOKIE', None
-        ) != cookie:
-            # Delete the compiled file (.pyc)
-            if module and hasattr(module, '__cached__'):
-                module_compiled_filename = module.__cached__
-            else:
-                module_compiled_filename = module_name + ".pyc"
+        if module is None:
+            source_code = ''.join(
+                [
+                    import_code, cookie_code, pack_code, unpack_code,
+                    f"BISTURI_PACKET_COMPLETE = '{cookie}'\n"
+                ]
+            )
+            self.write_generated_module(folder, module_pathname, source_code)
+            module = self.load_generated_module(
+                module_name, module_pathname, cookie
+            )
 
-            if os.path.exists(module_compiled_filename):
-                os.remove(module_compiled_filename)
-
-            # creates folder to host our generated code
-            os.makedirs(folder, exist_ok=True)
-
-            with open(module_pathname, 'w') as module_file:
-                module_file.write(import_code)
-                module_file.write(cookie_code)
-                module_file.write(pack_code)
-                module_file.write(unpack_code)
-
-            # load it (again)
-            module = SourceFileLoader(module_name,
-                                      module_pathname).load_module()
+        # Still not ours? Somebody else is (re)writing the file or we cannot
+        # write in the folder: don't fight for the file, run our code from
+        # memory.
+        if module is None:
+            module = types.ModuleType(module_name)
+            module.__file__ = module_pathname
+            exec(
+                compile(source_code, module_pathname, 'exec'),
+                module.__dict__
+            )
 
         from bisturi.packet import Packet
         if self.generate_for_pack and (
@@ -196,6 +198,58 @@ def unpack_impl(pkt, raw, offset, **k):
             self.pkt_class.unpack_impl == Packet.unpack_impl
         ):
             self.pkt_class.unpack_impl = module.unpack_impl
+
+    def load_generated_module(self, module_name, module_pathname, cookie):
+        ''' Load the generated module and return it only if it is complete
+            and it was generated for this packet class (see the cookie);
+            return None in any other case. '''
+        if not os.path.exists(module_pathname):
+            return None
+
+        # always a new module object: the attributes of a module loaded
+        # before under the same name must not fill the holes of this one
+        sys.modules.pop(module_name, None)
+        try:
+            module = SourceFileLoader(module_name,
+                                      module_pathname).load_module()
+        except Exception:
+            # half written, truncated, deleted in the meantime, ...
+            return None
+
+        if getattr(module, 'BISTURI_PACKET_COOKIE', None) != cookie or \
+                getattr(module, 'BISTURI_PACKET_COMPLETE', None) != cookie:
+            return None
+
+        return module
+
+    def write_generated_module(self, folder, module_pathname, source_code):
+        ''' Write the generated module so any reader sees the old file (if
+            any) or the new one but never a mix or a piece of them. '''
+        tmp_pathname = "%s.%i.%08x.tmp" % (
+            module_pathname, os.getpid(), random.getrandbits(32)
+        )
+        try:
+            # creates folder to host our generated code
+            os.makedirs(folder, exist_ok=True)
+
+            # Delete the compiled file (.pyc): it is validated only by the
+            # size and the modification time (in seconds) of the source
+            # so a stale one may be taken as the compiled version of the
+            # file that we are about to write.
+            try:
+                os.remove(cache_from_source(module_pathname))
+            except (OSError, NotImplementedError):
+                pass
+
+            with open(tmp_pathname, 'w') as module_file:
+                module_file.write(source_code)
+
+            os.replace(tmp_pathname, module_pathname)
+        except OSError:
+            try:
+                os.remove(tmp_pathname)
+            except OSError:
+                pass
 
     def generate_unrolled_code_for_descriptor_sync(self, sync_for_pack):
         if sync_for_pack:
